@@ -80,6 +80,9 @@ structure Backend where
   h : Handle
   active : String
   wtxn : Option (Nat × Db) := none      -- (session handle, its private copy)
+  keyM : String := "raw"                -- store key method (class) and pass key, as last set
+  keyP : Option String := none
+  defProfile : String := ""             -- config 'default_profile'
 
 def Backend.view (b : Backend) (s : Nat) : Db :=
   match b.wtxn with
@@ -122,6 +125,8 @@ structure World where
   scans : ResMap ScanV := {}
   backends : Array Backend := #[]
   slots : Array Slot := #[]
+  prov : List (Nat × Nat) := []         -- op index of a provision ↦ backend
+  lastErr : Option Nat := some 0        -- LAST_ERROR as `askar_get_current_error` would report it (none = not determined)
 
 /-- a store / session / scan handle argument -/
 def handleArg (w : World) (counter : Nat) (j : Json) : Nat :=
@@ -220,6 +225,49 @@ def sessionTask (sh : Nat) (f : World → Sess → Backend → Nat → World × 
     | (w, .error e) => (w, .error e)
     | (w, .ok (s, b)) => f w s b sv.backend
 
+/-- raw keys the generator knows to be valid (base58 of 32 bytes); base58 itself is modelled in C08 -/
+def validRawKeys : List String :=
+  ["7Z8ftDAzMvoyXnGEJye8DurzgFQXLAbYCaeeesM7UKHa", "6Ms3tPHAuvFqYufCfVVaAXK2TLjySPetqTdRuqLcRnu", "4BhCcWo3QnGLHySMRAy39K6UweJXhZPF167XF2k11XsP"]
+
+/-- `StoreKeyMethod::parse_uri` up to the classes used here -/
+def methodClass (m : String) : Except Err String :=
+  let pre := (m.splitOn ":").headD ""
+  if pre == "raw" then .ok "raw"
+  else if pre == "none" then .ok "none"
+  else if pre == "kdf" then
+    (if m == "kdf:argon2i:int" then .ok "kdf:int"
+     else if m == "kdf:argon2i:mod" || m == "kdf:argon2i" then .ok "kdf:mod"
+     else .error .unsupported)
+  else .error .unsupported
+
+/-- key method argument of rekey: absent = the default (argon2i, moderate) -/
+def methodArg (s : CStr) : Except Err String :=
+  match s.asOptStr with
+  | none => .ok "kdf:mod"
+  | some m => methodClass m
+
+/-- `StoreKeyMethod::resolve` for a NEW key (rekey); the blank raw key is refused by `rekey` itself -/
+def resolveNewKey (m : String) (p : Option String) : Except Err Unit :=
+  if m == "raw" then
+    match p with
+    | none => .error .input
+    | some k => if validRawKeys.contains k then .ok () else .error .input
+  else if m == "none" then .ok ()
+  else match p with
+    | none => .error .input
+    | some _ => .ok ()
+
+/-- `StoreKeyReference::resolve` + loading the profile key, for a store whose key is (m, p0) -/
+def openKey (m : String) (p0 p : Option String) : Except Err Unit :=
+  if m == "none" then .ok ()
+  else if m == "raw" then
+    match p with
+    | none => .error .input
+    | some k => if !validRawKeys.contains k then .error .input else if some k == p0 then .ok () else .error .encryption
+  else match p with
+    | none => .error .input
+    | some k => if some k == p0 then .ok () else .error .encryption
+
 def evalOp (w : World) (i : Nat) (j : Json) : World × Json :=
   let op := str! j "op"
   match op with
@@ -233,10 +281,11 @@ def evalOp (w : World) (i : Nat) (j : Json) : World × Json :=
         | none => .ok ()
     asyncEntry w j .required none dec fun w =>
       let profile := ((cstr j "profile").intoOptString).getD "default"
-      let b : Backend := { db := { profiles := [⟨1, profile, 0⟩] }, h := { cache := [(profile, 1, 0)], nextKey := 1 }, active := profile }
+      let b : Backend := { db := { profiles := [⟨1, profile, 0⟩] }, h := { cache := [(profile, 1, 0)], nextKey := 1 }, active := profile,
+                           keyM := "raw", keyP := (cstr j "pass").asOptStr, defProfile := profile }
       let bi := w.backends.size
       let (h, stores) := w.stores.insert 0 bi
-      (setSlot { w with stores := stores, backends := w.backends.push b } i (.handle h), .ok (Json.mkObj [("h", jnat h)]))
+      (setSlot { w with stores := stores, backends := w.backends.push b, prov := (i, bi) :: w.prov } i (.handle h), .ok (Json.mkObj [("h", jnat h)]))
   | "store_close" =>
     let h := handleArg w w.stores.counter j
     asyncEntry w j .optional none okUnit fun w =>
@@ -500,16 +549,130 @@ def evalOp (w : World) (i : Nat) (j : Json) : World × Json :=
   | "insert_key_null" =>
     -- `askar_session_insert_key` with a NULL key handle: `key_handle.load()?` fails after the callback check
     asyncEntry w j .required none (.error .input) fun w => (w, .ok "ok")
+  | "rekey" =>
+    let h := handleArg w w.stores.counter j
+    let mc := methodArg (cstr j "method")
+    asyncEntry w j .required none (mc.map fun _ => ()) fun w =>
+      match mc with
+      | .error e => (w, .error e)
+      | .ok m =>
+        -- `handle.remove()`, `store.rekey(..)`, `handle.replace(store)` whatever the outcome
+        match w.stores.borrow h with
+        | .error e => (w, .error e)
+        | .ok bi =>
+          match w.backends[bi]? with
+          | none => (w, .error .unexpected)
+          | some b =>
+            let p := (cstr j "pass").asOptStr
+            match resolveNewKey m p with
+            | .error e => (w, .error e)
+            | .ok _ =>
+              if b.wtxn.isSome then (w, .error .backend) else
+              (setBackend w bi { b with keyM := m, keyP := p }, .ok "ok")
+  | "store_open" =>
+    -- open the file of an earlier provision under a new handle (the harness closes it at once)
+    let mc : Except Err (Option String) := match (cstr j "method").asOptStr with
+      | none => .ok none
+      | some m => (methodClass m).map some
+    let dec : Except Err Unit := match (cstr j "uri").intoOptString with
+      | none => .error .input
+      | some _ => mc.map fun _ => ()
+    asyncEntry w j .required none dec fun w =>
+      match mc with
+      | .error e => (w, .error e)
+      | .ok m =>
+        match (w.prov.find? (·.1 == nat! j "of")).bind fun pb => w.backends[pb.2]? with
+        | none => (w, .error .backend)
+        | some b =>
+          if (match m with | some m => m != b.keyM | none => false) then (w, .error .input) else   -- "Store key method mismatch"
+          match openKey b.keyM b.keyP ((cstr j "pass").asOptStr) with
+          | .error e => (w, .error e)
+          | .ok _ =>
+            let (h, stores) := w.stores.insert 0 0
+            ({ w with stores := (stores.remove h).2 }, .ok (Json.mkObj [("opened", jnat h)]))
+  | "remove_profile" =>
+    let h := handleArg w w.stores.counter j
+    let dec : Except Err Unit := (required (cstr j "name")).map fun _ => ()
+    asyncEntry w j .required none dec fun w =>
+      match w.stores.borrow h with
+      | .error e => (w, .error e)
+      | .ok bi =>
+        match w.backends[bi]? with
+        | none => (w, .error .unexpected)
+        | some b =>
+          if b.wtxn.isSome then (w, .error .backend) else
+          let ((db, hd), r) := removeProfile b.db b.h (((cstr j "name").intoOptString).getD "") evictOnRemove
+          (setBackend w bi { b with db := db, h := hd }, .ok (Json.mkObj [("removed", .bool r)]))
+  | "get_default_profile" =>
+    let h := handleArg w w.stores.counter j
+    asyncEntry w j .required none okUnit fun w =>
+      match w.stores.borrow h with
+      | .error e => (w, .error e)
+      | .ok bi => (w, .ok (Json.mkObj [("name", .str ((w.backends[bi]?.map (·.defProfile)).getD ""))]))
+  | "set_default_profile" =>
+    let h := handleArg w w.stores.counter j
+    let dec : Except Err Unit := (required (cstr j "name")).map fun _ => ()
+    asyncEntry w j .required none dec fun w =>
+      match w.stores.borrow h with
+      | .error e => (w, .error e)
+      | .ok bi =>
+        match w.backends[bi]? with
+        | none => (w, .error .unexpected)
+        | some b => (setBackend w bi { b with defProfile := ((cstr j "name").intoOptString).getD "" }, .ok "ok")
+  | "version" => (w, jsync .success "version")
+  | "current_error" =>
+    (w, Json.mkObj [("code", match w.lastErr with | some n => jnat n | none => "any")])
+  | "set_max_log_level" =>
+    let l := int! j "level"
+    (w, jsync (if -1 ≤ l && l ≤ 5 then .success else .input) .null)
+  | "strlist_count" =>
+    let nullOut := bool! j "null_out"
+    match slotArg w j with
+    | .strs l =>
+      match checkOutAndHandle nullOut false with
+      | .error e => (w, jsync (Code.ofErr e) .null)
+      | .ok _ => (w, jsync .success (jnat l.length))
+    | _ =>
+      match checkOutAndHandle nullOut true with
+      | .error e => (w, jsync (Code.ofErr e) .null)
+      | .ok _ => (w, jsync .success .null)
+  | "null_probe" =>
+    -- synchronous accessors called with a NULL handle (valid out) and with a NULL out-pointer:
+    -- `check_useful_c_ptr!` / `ArcHandle::validate` ⇒ Input in both cases
+    (w, Json.mkObj [("null_handle", jcode (match checkOutAndHandle false true with | .error e => Code.ofErr e | .ok _ => .success)),
+                    ("null_out", jcode (match checkOutAndHandle true false with | .error e => Code.ofErr e | .ok _ => .success))])
   | "raw_key_null_out" =>
     (w, Json.mkObj [("crash", .bool (generateRawKeyOut true == .segfault))])
   | _ => (w, jerr "BadOp")
+
+def codeNum (n : String) : Nat :=
+  match n with
+  | "Backend" => 1 | "Busy" => 2 | "Duplicate" => 3 | "Encryption" => 4 | "Input" => 5 | "NotFound" => 6
+  | "Unexpected" => 7 | "Unsupported" => 8 | "Custom" => 100 | _ => 0
+
+/-- `LAST_ERROR`: set by every error that goes through `set_last_error` (a `catch_err!` return or an
+    error delivered to a callback), not by the direct `return ErrorCode::Unsupported` of the order_by
+    check, taken by `askar_get_current_error`.  The harness itself reads the slot after a code 7
+    (to look for a caught panic) and clobbers it when it has to poll after a close without callback. -/
+def trackLastErr (w : World) (op o : Json) : World :=
+  let name := str! op "op"
+  if name == "current_error" then { w with lastErr := some 0 } else
+  let r := str! o "r"
+  let cbe := match o.getObjVal? "cb" with | .ok cb => str! cb "err" | .error _ => ""
+  if r == "Unexpected" || cbe == "Unexpected" then { w with lastErr := some 0 } else
+  if (name == "store_close" || name == "session_close") && !bool! op "cb" then { w with lastErr := none } else
+  if name == "store_open" || name == "null_probe" then { w with lastErr := none } else
+  if cbe != "" then { w with lastErr := some (codeNum cbe) } else
+  if r != "" && r != "Success" then
+    if (name == "fetch_all" || name == "scan_start") && r == "Unsupported" then w else { w with lastErr := some (codeNum r) }
+  else w
 
 def runCase (j : Json) : Json :=
   let ops := arr! j "ops"
   let (_, outs, _) := ops.foldl (fun (acc : World × Array Json × Nat) op =>
     let (w, outs, i) := acc
     let (w', o) := evalOp w i op
-    (w', outs.push o, i + 1)) (({} : World), #[], 0)
+    (trackLastErr w' op o, outs.push o, i + 1)) (({} : World), #[], 0)
   .arr outs
 
 end Driver.C19
